@@ -92,10 +92,22 @@ def diff_paths(a, b, path=""):
 def gen_schema_case(rng):
     c = P.gen_case(rng, regex_rate=0.35, index_schema_rate=0.3, conform_bias=0.9, max_rows=4)
     S = c["schema"]
-    S["unique"] = []
+    declared = [s_["name"] for s_ in S["columns"] if s_["regex"] is None]
+    # joint uniqueness over declared columns (read by the strategies and the uniqueness check)
+    S["unique"] = rng.sample(declared, rng.randint(1, min(2, len(declared)))) if declared and rng.random() < 0.4 else []
     kind = rng.random()
-    c["extras"] = {"tz_agnostic": kind < 0.12, "coerce": rng.random() < 0.3}
+    c["extras"] = {"tz_agnostic": kind < 0.12, "coerce": rng.random() < 0.3, "raising_parser": rng.random() < 0.3}
     return c
+
+
+RAISE = {"on": False}
+
+
+def _toggle_parser(s):
+    """a user parser that raises (an exception outside pandera's own classes) when switched on"""
+    if RAISE["on"]:
+        raise ValueError("parser switched on to raise")
+    return s
 
 
 def build_schema(c):
@@ -107,6 +119,10 @@ def build_schema(c):
             if s["dtype"] in ("int64", "float64", "str"):
                 s["coerce"] = True
     schema = A.schema_of(S)
+    if c["extras"].get("raising_parser"):
+        # a second coercing column carrying the switchable parser, behind the generated ones
+        schema = schema.add_columns({"zz_parsed": pa.Column(int, parsers=pa.Parser(_toggle_parser), coerce=True,
+                                                            required=False)})
     if c["extras"]["tz_agnostic"]:
         schema = schema.add_columns({"tzcol": pa.Column(pandas_engine.DateTime(time_zone_agnostic=True),
                                                          required=False)})
@@ -125,6 +141,9 @@ def probes(c, rng):
             bad = pd.DataFrame({"__unexpected__": [1]})
     else:
         bad = pd.DataFrame({"__unexpected__": ["x"]})
+    if c["extras"].get("raising_parser"):
+        good = good.copy()
+        good["zz_parsed"] = [str(i) for i in range(len(good))]
     out = [good, bad]
     if c["extras"]["tz_agnostic"]:
         tz = good.copy()
@@ -143,7 +162,8 @@ def verdict(schema, df, lazy=False):
 OPS = ["validate_probe0", "validate_probe1", "validate_probe0_lazy", "validate_probe1_lazy", "validate_probe2",
        "to_yaml", "to_json", "to_script", "statistics", "repr", "str", "eq", "copy", "deepcopy",
        "add_columns", "remove_columns", "update_column", "rename_columns", "select_columns", "set_index",
-       "reset_index", "coerce_dtype", "strategy", "hash_checks", "column_validate", "get_dtypes"]
+       "reset_index", "coerce_dtype", "strategy", "hash_checks", "column_validate", "get_dtypes", "example", "validate_raising_parser",
+       "validate_raising_parser_lazy"]
 
 
 def apply_op(op, schema, prs, rng):
@@ -206,6 +226,17 @@ def apply_op(op, schema, prs, rng):
                 names = [k for k, v in schema.columns.items() if not v.regex]
                 if names and rng.random() < 0.3:
                     schema.columns[names[0]].strategy(size=2)
+            elif op.startswith("validate_raising_parser"):
+                # an exception that is neither SchemaError nor SchemaErrors propagates out of a component
+                RAISE["on"] = True
+                try:
+                    P.run_validate(schema, prs[0].copy(), lazy=op.endswith("lazy"))
+                finally:
+                    RAISE["on"] = False
+            elif op == "example":
+                # a strategy only reads the schema when an example is drawn
+                if rng.random() < 0.5:
+                    schema.example(size=rng.choice([0, 1, 2]))
             elif op == "hash_checks":
                 for col in schema.columns.values():
                     for chk in col.checks:
